@@ -850,10 +850,13 @@ void World::doParamEdit(const Step &st, StepRecord &rec) {
             else violate("C09", "parameter-edit/refused/" + rec.exc, "a parameter copied out of the object, edited and handed back was refused: " + rec.exc + " (" + lastWhat + ")");
         } else {
             Snapshot e2 = before;
-            // the first parameter of that name in the group is the one that is replaced
-            size_t tgt = pi;
-            for (size_t q = 0; q < e2.groups[gi].params.size(); ++q) if (e2.groups[gi].params[q].name == handed.name) { tgt = q; break; }
-            e2.groups[gi].params[tgt] = handed;
+            // the FIRST group of that name receives it (a file may hold two groups with one name), and in it the first
+            // parameter of that name is replaced, otherwise the parameter is appended
+            size_t tg = gi;
+            for (size_t g = 0; g < e2.groups.size(); ++g) if (e2.groups[g].name == before.groups[gi].name) { tg = g; break; }
+            size_t tgt = e2.groups[tg].params.size();
+            for (size_t q = 0; q < e2.groups[tg].params.size(); ++q) if (e2.groups[tg].params[q].name == handed.name) { tgt = q; break; }
+            if (tgt == e2.groups[tg].params.size()) e2.groups[tg].params.push_back(handed); else e2.groups[tg].params[tgt] = handed;
             DiffOpts o; o.skip_header = true; o.skip_frames = true;
             std::string fc, d = diff_snapshots(e2, cur, o, &fc);
             if (!d.empty()) violate("C09", "parameter-edit/tree/" + fc, "after handing back an edited copy the tree is not 'exactly what was asked': " + d);
